@@ -552,6 +552,28 @@ theorem sim_stepOpBasic {w : World} {j : JState} (h : RP w j) (ha : opAllowed j 
     · exact stepOK_one (by decide) rfl
         ⟨⟨h.1.hbs, h.1.known, h.1.nofn, h.1.dead, h.1.flag, h.1.cur, h.1.ok, h.1.cap, h.1.sub⟩, h.2⟩ (Frame.refl j)
     · exact stepOK_one (by decide) rfl h (Frame.refl j)
+  | zshb n =>
+    cases hk : w.known.contains self with
+    | false =>
+      have hjk : j.alive self = false := by unfold JState.alive; rw [← h.1.known, hk]; rfl
+      have hst : stepOpBasic w self (.zshb n) = (w, [.zshb self n], .ok) := by
+        simp only [stepOpBasic]; rw [if_pos (by rw [hk]; rfl)]
+      rw [hst]
+      exact stepOK_one (by decide) (by simp [judge1, ha, hjk]) h (Frame.refl j)
+    | true =>
+      have hst : stepOpBasic w self (.zshb n) = (setHeartBeat w self (satEfun n), [.zshb self n], .ok) := by
+        simp only [stepOpBasic, gen_efunSat_eq]; rw [if_neg (by rw [hk]; decide)]
+      rw [hst]
+      cases hd : w.dead.contains self with
+      | true =>
+        have hjk : j.alive self = false := by unfold JState.alive; rw [← h.1.dead, hd]; simp
+        have hw : setHeartBeat w self (satEfun n) = w := by
+          rw [setHeartBeat_eq_ref]; unfold setHeartBeatRef; rw [if_pos hd]
+        rw [hw]
+        exact stepOK_one (by decide) (by simp [judge1, ha, hjk]) h (Frame.refl j)
+      | false =>
+        have hjk : j.alive self = true := by unfold JState.alive; rw [← h.1.known, ← h.1.dead, hk, hd]; rfl
+        exact stepOK_one (by decide) (by simp [judge1, ha, hjk]) (sim_set h self n hd) (jSet_frame j self n)
   | mv x =>
     simp only [stepOpBasic]
     split
@@ -813,10 +835,61 @@ theorem sim_stepOp {w : World} {j : JState} (h : RP w j) (ha : opAllowed j = tru
   | take i => exact sim_stepOpBasic h ha self _
   | cerr => exact sim_stepOpBasic h ha self _
   | mv x => exact sim_stepOpBasic h ha self _
+  | zshb n => exact sim_stepOpBasic h ha self _
   | reload t n => exact sim_stepOpBasic h ha self _
   | living => exact sim_stepOpBasic h ha self _
   | burn => exact sim_stepOpBasic h ha self _
   | rp => exact sim_stepOpBasic h ha self _
+
+theorem stepOpBasic_zshb_ok (w : World) (self : Nat) (n : Int) : (stepOpBasic w self (.zshb n)).2.2 = .ok := by
+  simp only [stepOpBasic]; split <;> rfl
+
+/-- the rest of a script after the object destructed itself -/
+theorem sim_runDead (self : Nat) : ∀ (ops : List Op) (w : World) (j : JState), RP w j → opAllowed j = true →
+    StepOK w j (runDead w self ops) := by
+  intro ops
+  induction ops with
+  | nil =>
+    intro w j h _
+    unfold runDead StepOK
+    simp only [List.foldl, reduceCtorEq, if_false]
+    exact ⟨h, Frame.refl j⟩
+  | cons op rest ih =>
+    intro w j h ha
+    have hplain : StepOK w j (w, [], .stop) := by
+      unfold StepOK
+      simp only [List.foldl, reduceCtorEq, if_false]
+      exact ⟨h, Frame.refl j⟩
+    cases op with
+    | zshb n =>
+      have h1 := sim_stepOpBasic h ha self (.zshb n)
+      have hok := stepOpBasic_zshb_ok w self n
+      rcases hs : stepOpBasic w self (.zshb n) with ⟨w1, evs, st⟩
+      rw [hs] at h1 hok
+      simp only at hok
+      subst hok
+      unfold StepOK at h1
+      simp only [reduceCtorEq, if_false] at h1
+      obtain ⟨hR1, hF1⟩ := h1
+      have h2 := ih w1 (evs.foldl judge1 j) hR1 (opAllowed_frame hF1 ha)
+      simp only [runDead, hs]
+      rcases hr : runDead w1 self rest with ⟨w2, evs2, st2⟩
+      rw [hr] at h2
+      unfold StepOK at h2 ⊢
+      simp only [List.foldl_append]
+      by_cases he : st2 = .err
+      · simp only [he, if_true] at h2 ⊢
+        obtain ⟨a, b, c, d, e⟩ := h2
+        refine ⟨a, b.trans hF1.bad, c.trans hF1.inRound, ?_, e⟩
+        rw [d, hF1.inRound, hF1.expect]
+      · simp only [he, if_false] at h2 ⊢
+        exact ⟨h2.1, Frame.trans hF1 h2.2⟩
+    | err =>
+      simp only [runDead]
+      unfold StepOK
+      simp only [List.foldl, judge1_err, if_true]
+      exact sim_err h
+    | _ => simp only [runDead]; exact hplain
 
 theorem sim_runOps (self : Nat) : ∀ (ops : List Op) (w : World) (j : JState), RP w j → opAllowed j = true →
     StepOK w j (runOps w self ops) := by
@@ -854,23 +927,22 @@ theorem sim_runOps (self : Nat) : ∀ (ops : List Op) (w : World) (j : JState), 
                 exact ⟨h2.1, Frame.trans hF1 h2.2⟩
         | err => simp only [runOps, hs]; exact h1
         | stop =>
-          have hplain : StepOK w j (w1, evs, .stop) := h1
           unfold StepOK at h1
           simp only [reduceCtorEq, if_false] at h1
           obtain ⟨hR1, hF1⟩ := h1
-          cases rest with
-          | nil => simp only [runOps, hs]; exact hplain
-          | cons op2 rest2 =>
-            cases op2 with
-            | err =>
-              simp only [runOps, hs]
-              have h2 := sim_err hR1
-              unfold StepOK
-              simp only [if_true, List.foldl_append, List.foldl_cons, List.foldl_nil, judge1_err]
-              obtain ⟨a, b, c, d, e⟩ := h2
-              refine ⟨a, b.trans hF1.bad, c.trans hF1.inRound, ?_, e⟩
-              rw [d, hF1.inRound, hF1.expect]
-            | _ => simp only [runOps, hs]; exact hplain
+          have h2 := sim_runDead self rest w1 (evs.foldl judge1 j) hR1 (opAllowed_frame hF1 ha)
+          simp only [runOps, hs]
+          rcases hr : runDead w1 self rest with ⟨w2, evs2, st2⟩
+          rw [hr] at h2
+          unfold StepOK at h2 ⊢
+          simp only [List.foldl_append]
+          by_cases he : st2 = .err
+          · simp only [he, if_true] at h2 ⊢
+            obtain ⟨a, b, c, d, e⟩ := h2
+            refine ⟨a, b.trans hF1.bad, c.trans hF1.inRound, ?_, e⟩
+            rw [d, hF1.inRound, hF1.expect]
+          · simp only [he, if_false] at h2 ⊢
+            exact ⟨h2.1, Frame.trans hF1 h2.2⟩
 
 theorem advance_fire {j : JState} {x : Entry} {rest : List Entry} (hp : j.pend = x :: rest)
     (hf : (!j.nofn.contains x.ob && decide (wrap16 (x.ticks - 1) < 1)) = true) :
